@@ -18,7 +18,7 @@ PROP = dict(
                  **pure_fns("NetworkZnnRewardPerEpoch", "NetworkQsrRewardPerEpoch", "PillarRewardPerMomentum",
                             "SentinelRewardForEpoch", "LiquidityRewardForEpoch", "StakeQsrRewardPerEpoch")}},
     suites=[{"bin": "c09", "name": "abi", "n": {"quick": 1500, "thorough": 30000}},
-            {"bin": "c09", "name": "calls", "n": {"quick": 44, "thorough": 1500}, "timeout": 3000},
+            {"bin": "c09", "name": "calls", "n": {"quick": 44, "thorough": 800}, "timeout": 6000},
             {"bin": "c09", "name": "removed", "n": {"quick": 10, "thorough": 100}},
             {"bin": "c09", "name": "wedge", "n": {"quick": 1, "thorough": 10}},
             # the emission functions run inside every reward contract's Update receive at every chain age: all epochs up
